@@ -201,7 +201,9 @@ compiler + g++ by `./check C07`):
 2. `[requires]` on `x_1` and `x1` → two `EmbossReservedValidatorForX1`;
 3. field `backing_`; 4. parameter `x` and field `x_`; 5. fields `x` and `has_x`;
 6. nested enum `Ok`; 7. struct `Bar` and enum `BarView`; 8. enum `EnumTraits`;
-9. constant-size struct with nested enum `MaxSizeInBytes`. -/
+9. constant-size struct with nested enum `MaxSizeInBytes`;
+10. a structure named `Storage` (or `ValueType`): the unqualified `Storage::MaxSizeInBytes()` in
+the constant's `Read()` finds the template parameter instead of the namespace. -/
 theorem C07_names_counterexample :
     clean (classScope { name := s "Foo", fields := [fPlain "y", fVirt "x_1", fVirt "x1"] }) = false ∧
     clean (namespaceScope { owner := some { name := s "Foo", fields := [fReq "x_1", fReq "x1"] } }) = false ∧
@@ -211,7 +213,8 @@ theorem C07_names_counterexample :
     clean (classScope { name := s "Foo", fields := [fPlain "y"], nestedEnums := [s "Ok"] }) = false ∧
     clean (namespaceScope { structs := [s "Bar"], enums := [s "BarView"] }) = false ∧
     clean (namespaceScope { enums := [s "EnumTraits"] }) = false ∧
-    clean (namespaceScope { enums := [s "MaxSizeInBytes"], owner := some { name := s "Foo", fields := [fConst "$max_size_in_bytes"] } }) = false := by
+    clean (namespaceScope { enums := [s "MaxSizeInBytes"], owner := some { name := s "Foo", fields := [fConst "$max_size_in_bytes"] } }) = false ∧
+    clean (referenceScope { name := s "Storage", fields := [fConst "$max_size_in_bytes"] }) = false := by
   decide
 
 /-- Non-vacuity: an ordinary structure is clean, and meets the hypotheses of
